@@ -111,19 +111,11 @@ def analyse(repo: Repo) -> ScanInfo:
             elif e.name == "insert" and len(e.args) == 2:
                 elems = [(e.args[1], known)]
             elif e.name in ("extend", "update") and len(e.args) == 1:
-                src = unbox(e.args[0])
-                if src[0] in ("list", "tuple", "set") and not any(x[0] == "star" for x in src[1]):
-                    elems = [(x, known) for x in src[1]]
-                elif src[0] == "comp":
-                    conds = [c for _tg, _it, cs in src[3] for c in cs]
-                    elems = [(src[2], f_and([known, *conds]))]
-                elif src[0] == "yields":
-                    elems = [(v, f_and([known, g])) for g, v in src[1]]
-                elif src[0] == "call" and src[1] == ("builtin", "filter") and len(src[2]) == 2 and is_none(src[2][0]) and unbox(src[2][1])[0] in ("list", "tuple") and not any(x[0] == "star" for x in unbox(src[2][1])[1]):
-                    elems = [(x, f_and([known, sx.truth(x)])) for x in unbox(src[2][1])[1]]  # the truthy ones
-                else:
-                    info.problems.append(f"module names are added in bulk from `{show(src, 80)}`")
+                got = _bulk_elements(sx, e.args[0], known)
+                if got is None:
+                    info.problems.append(f"module names are added in bulk from `{show(unbox(e.args[0]), 80)}`")
                     continue
+                elems = got
             elif e.name in ("remove", "discard", "clear", "pop", "sort", "reverse"):
                 if e.name not in ("sort", "reverse"):
                     info.problems.append(f"module names are removed again by `{e.name}`")
@@ -139,6 +131,70 @@ def analyse(repo: Repo) -> ScanInfo:
         elif e.kind == "call" and (e.func == ("builtin", "open") or e.func == ("lib", "ast.parse") or e.name in ("read_text", "read_bytes") or e.func == ("lib", "io.open") or e.func == ("lib", "tokenize.open")):
             info.reads.append(e)
     return info
+
+
+def _projection_of(path: Term, holder: Term) -> bool:
+    """`path` is `holder` itself or a component of it (`holder[0]`, `holder.path`): a test `holder is None` says that there is
+    no path at all, not which paths are registered."""
+    want = ident(holder)
+    while True:
+        if ident(path) == want:
+            return True
+        if path[0] in ("idx", "attr"):
+            path = path[1]
+        else:
+            return False
+
+
+def _bulk_elements(sx: SymX, src: Term, known) -> "list[tuple[Term, object]] | None":
+    """(element, condition) for everything a bulk update (`extend` / `update` / `+=`) adds."""
+    src = unbox(src)
+    tag = src[0]
+    if tag in ("list", "tuple", "set"):
+        out: list = []
+        for x in src[1]:
+            if x[0] == "star":
+                inner = _bulk_elements(sx, x[1], known)
+                if inner is None:
+                    return None
+                out += inner
+            else:
+                out.append((x, known))
+        return out
+    if tag == "phi":
+        out = []
+        for g, a in src[1]:
+            inner = _bulk_elements(sx, a, f_and([known, g]))
+            if inner is None:
+                return None
+            out += inner
+        return out
+    if tag == "comp" and src[1] in ("list", "gen", "set"):
+        conds = [c for _tg, _it, cs in src[3] for c in cs]
+        return [(src[2], f_and([known, *conds]))]
+    if tag == "yields":
+        return [(v, f_and([known, g])) for g, v in src[1]]
+    if tag == "call" and src[1] in (("builtin", "list"), ("builtin", "tuple"), ("builtin", "iter"), ("builtin", "reversed"), ("builtin", "sorted")) and len(src[2]) == 1 and not src[3]:
+        return _bulk_elements(sx, src[2][0], known)
+    if tag == "call" and src[1] == ("builtin", "filter") and len(src[2]) == 2 and is_none(src[2][0]):
+        inner = _bulk_elements(sx, src[2][1], known)
+        return None if inner is None else [(x, f_and([kn, sx.truth(x)])) for x, kn in inner]  # the truthy ones
+    if tag == "binop" and src[1] == "+":
+        a, b = _bulk_elements(sx, src[2], known), _bulk_elements(sx, src[3], known)
+        return None if a is None or b is None else a + b
+    if tag == "binop" and src[1] == "*":
+        # `[x] * bool(c)`: the elements if c holds, nothing otherwise
+        for seq_, times in ((src[2], src[3]), (src[3], src[2])):
+            if times[0] == "const" and isinstance(times[1], int) and not isinstance(times[1], bool) and times[1] >= 0:
+                inner = _bulk_elements(sx, seq_, known)
+                if inner is not None:
+                    return inner if times[1] else []
+            if times[0] == "call" and times[1] == ("builtin", "bool") and len(times[2]) == 1:
+                inner = _bulk_elements(sx, seq_, f_and([known, sx.truth(times[2][0])]))
+                if inner is not None:
+                    return inner
+        return None
+    return None
 
 
 def _path_of(name: Term) -> Term | None:
@@ -351,7 +407,7 @@ def run_registration(repo: Repo, res: Result, rule: str) -> int:
         if ok:
             accepted = {k for k, r in roles.items() if r == "WORK"} | _name_truthiness_atoms(sx, reg.known, reg)
             # `entry is _NO_MORE_ENTRIES` / `entry is None`: the end-of-iteration marker of the walk, not a property of a path
-            accepted |= {k for k in atoms_of(f) if (t_ := sx.atoms.get(k)) is not None and t_[0] == "cmp" and t_[1] == "is" and any(o[0] == "lib" or is_none(o) for o in (t_[2], t_[3])) and any(ident(o) == ident(reg.path) for o in (t_[2], t_[3]))}
+            accepted |= {k for k in atoms_of(f) if (t_ := sx.atoms.get(k)) is not None and t_[0] == "cmp" and t_[1] == "is" and any(o[0] == "lib" or is_none(o) for o in (t_[2], t_[3])) and any(_projection_of(reg.path, o) for o in (t_[2], t_[3]))}
             # case distinctions of the name computation do not decide about the registration when both cases register
             for k in sorted(k for k, r in roles.items() if r == "NAME" and k not in accepted):
                 f_t, f_f = simplify(substitute(f, {k: True})), simplify(substitute(f, {k: False}))
@@ -518,8 +574,8 @@ def _children_handed_on(info: ScanInfo, d: Event):
         if e.kind == "call" and e.func == ("builtin", "map") and len(e.args) == 2 and e.args[0][0] in ("attr", "fn", "bound", "partial") and _unwrap_iterable(e.args[1]) == entries:
             good.append("each entry")  # `map(self._visit, entries)`: the visiting function is applied to every entry
             continue
-        if e.kind == "call" and e.func[0] != "fn":
-            continue
+        if e.kind == "call" and e.func[0] != "fn" and not (e.func[0] == "cls" and e.func[1] in info.sx.repo.classes):
+            continue  # (an entry wrapped into an object of the repo, e.g. a node of a linked work list, is handed on as well)
         operands = []
         for a in [*e.args, *[v for _k, v in e.kwargs]]:
             # a value chosen among several (e.g. `[]` for an excluded directory, else its entries): each alternative counts
